@@ -56,7 +56,75 @@ def poly1305_blocks64(it, p):
                 claim="h0' + 2^44 h1' + 2^88 h2' == (h + m + 2^128*[not final]) * r  (mod 2^130 - 5)")
 
 
+P25519 = (1 << 255) - 19
+FE_IN = (1 << 54) - 1          # "loose" limbs accepted by mul / sq (sums and differences of carried elements stay below)
+FE_TIGHT = (1 << 51) + (1 << 13)   # limbs after a carry chain
+
+
+def fe_buf(it, name, limbs):
+    b = it.new_buffer(40, name, False, [0] * 40)
+    for i, v in enumerate(limbs):
+        put64(it, b, 8 * i, v)
+    return b
+
+
+def fe_get(it, b):
+    out = [limb.lift(get64(it, b, 8 * i), 64) for i in range(5)]
+    for x in out:
+        if x.mod:
+            limb.C.wraps.append(("output limb may have wrapped", x.lo, x.hi))
+    return out
+
+
+def fe_vars(name, hi):
+    return [limb.var("%s%d" % (name, i), 64, 0, hi) for i in range(5)]
+
+
+R51 = (0, 51, 102, 153, 204)
+
+
+def fe51_op(it, p):
+    """fe25519 (5 x 51-bit limbs) kernels: result == the field operation (mod 2^255 - 19), output limbs carried"""
+    op = p["op"]
+    inb = p.get("in", FE_IN)
+    f = fe_vars("f", inb)
+    fb = fe_buf(it, "f", f)
+    hb = fe_buf(it, "h", [0] * 5)
+    F = limb.combine(f, R51)
+    outb = p.get("out", FE_TIGHT)
+    if op in ("mul", "add", "sub"):
+        g = fe_vars("g", inb)
+        gb = fe_buf(it, "g", g)
+        G = limb.combine(g, R51)
+        it.call(_name(it, "fe25519_" + op), [hb, fb, gb])
+        expect = limb.pmul(F, G) if op == "mul" else limb.padd(F, G, 1 if op == "add" else -1)
+    elif op in ("sq", "sq2", "neg"):
+        it.call(_name(it, "fe25519_" + op), [hb, fb])
+        expect = {"sq": limb.pmul(F, F), "sq2": limb.pscale(limb.pmul(F, F), 2), "neg": limb.pscale(F, -1)}[op]
+    elif op == "mul32":
+        # the only caller passes the curve constant (a24 = 121666); clang's interprocedural constant propagation
+        # specialises the static function to it, so the compiled unit is checked for that constant
+        n = p["n"]
+        it.call(_name(it, "fe25519_mul32"), [hb, fb, n])
+        expect = limb.pscale(F, n)
+    else:
+        raise KeyError(op)
+    h = fe_get(it, hb)
+    H = limb.combine(h, R51)
+    diff = limb.padd(H, expect, -1)
+    bounds_ok = all(0 <= x.lo and x.hi <= outb for x in h)
+    return dict(diff=diff, modulus=P25519, bounds_ok=bounds_ok,
+                bounds="output limbs <= %s (required <= %#x) for input limbs <= %#x" % ([hex(x.hi) for x in h], outb, inb),
+                claim="sum h_i 2^(51 i) == %s(f%s)  (mod 2^255 - 19)" % (op, ", g" if op in ("mul", "add", "sub") else ""))
+
+
 TARGETS = [
+    dict(name="fe25519-51-x25519", units=["crypto_scalarmult/curve25519/ref10/x25519_ref10.c", "sodium/utils.c"], cflags=["-fno-inline-functions"], run=fe51_op,
+         params=[{"op": "mul"}, {"op": "sq"}, {"op": "mul32", "n": 121666, "out": (1 << 52) - 1},
+                 {"op": "add", "in": (1 << 62) - 1, "out": (1 << 63) - 2}, {"op": "sub", "in": (1 << 53) - 1, "out": FE_IN}]),
+    dict(name="fe25519-51", units=["crypto_core/ed25519/ref10/ed25519_ref10.c", "sodium/utils.c"], cflags=["-fno-inline-functions"], run=fe51_op,
+         params=[{"op": "mul"}, {"op": "sq"}, {"op": "sq2", "in": (1 << 53) - 1}, {"op": "mul32", "n": 486662, "out": (1 << 52) - 1},
+                 {"op": "add", "in": (1 << 62) - 1, "out": (1 << 63) - 2}, {"op": "sub", "in": (1 << 53) - 1, "out": FE_IN}, {"op": "neg", "in": FE_IN, "out": FE_IN}]),
     dict(name="poly1305-blocks-donna64", units=["crypto_onetimeauth/poly1305/donna/poly1305_donna.c", "sodium/utils.c", "crypto_verify/verify.c"],
          cflags=["-fno-inline-functions"], run=poly1305_blocks64, params=[{"final": 0}, {"final": 1}]),
 ]
